@@ -119,7 +119,7 @@ def parse_template(path):
             else:
                 if kw == "end":
                     out.append(("fn", cur)); cur = None; cur_dir = None
-                elif kw in ("props", "nocanary"):
+                elif kw in ("props", "nocanary", "mutself"):
                     cur.directives.append((kw, rest, [], i + 1))
                 else:
                     cur_dir = (kw, rest, [], i + 1)
@@ -174,6 +174,10 @@ def find_text(src, lo, hi, needle, nth, what, allow_ws=True):
     ms = [(m.start(), m.end()) for m in rx.finditer(src, lo, hi)]
     if nth == "all":
         return ms
+    if nth == "last":
+        if not ms:
+            raise VxError(f"lost anchor: {what}: text `{needle}` not found")
+        return ms[-1]
     if nth == 0:
         if len(ms) != 1:
             raise VxError(f"lost anchor: {what}: text `{needle}` occurs {len(ms)} times (expected exactly 1)")
@@ -346,6 +350,14 @@ def process_fn(repo, glob, fs, log):
         what = f"{fs.name} (template line {tl})"
         if kw in ("block", "nocanary", "props"):
             continue
+        if kw == "mutself":
+            # E16: `mut self` parameter (unsupported by Verus) -> `self` rebound to a mutable local, body tokens renamed
+            for k in range(tlo, thi):
+                if toks[k].kind == "ident" and toks[k].text == "self" and not is_covered(toks[k].start):
+                    ed.add(toks[k].start, toks[k].end, "__self", "E16", "mutself")
+            ed.add(lo, lo, " let mut __self = self; ", "E16", "mutself")
+            logrule("E16", lo, "mut self", "self; let mut __self = self; (body: self -> __self)")
+            continue
         if kw == "loop":
             loop_spec[int(rest.split()[0])] = "\n".join(payload)
         elif kw == "for":
@@ -381,6 +393,7 @@ def process_fn(repo, glob, fs, log):
             nth = 0
             for w in words[1:]:
                 if w.isdigit(): nth = int(w)
+                if w == "last": nth = "last"
             text = "\n".join(payload) + "\n"
             if where == "entry":
                 ed.add(lo, lo, "\n" + text, "E13", "hint entry")
